@@ -27,6 +27,13 @@ for pid in sorted(SPECS):
     })
 old = json.load(open(os.path.join(VERIF, "MANIFEST.json")))
 old["checks"] = checks
+kf = json.load(open(os.path.join(VERIF, "known_findings.json")))["findings"]
+known = [f for f in kf if f.get("status") == "known"]
+fixed_commits = sorted({f.get("commit") for f in kf if f.get("status") == "fixed" and f.get("commit")})
+old["notes"] = ("All checks are static (technique family: static analysis). Exit 0 = nothing armed fired or only constructs listed in /verif/known_findings.json "
+                "(printed as KNOWN-FINDING); exit 1 = unlisted violation (VIOLATION line with replay file); exit 2 = ANALYSIS-ERROR (vanished anchor / vacuity floor / "
+                "crash). %d genuine defects were repaired in /repo by 'fix:' commits recorded in known_findings.json, %d known-finding entries remain (%d constructs). "
+                "See DESIGN.md." % (len(fixed_commits), len(known), len({(f["rule"], f["where"], f["construct"]) for f in known})))
 old["engines"][0]["serves_properties"] = sorted(SPECS)
 json.dump(old, open(os.path.join(VERIF, "MANIFEST.json"), "w"), indent=1)
 print("MANIFEST.json regenerated: %d checks" % len(checks))
